@@ -132,10 +132,14 @@ func (fr *frame) get(key ssa.Value) value {
 	case *ssa.Const:
 		return constValue(key)
 	case *ssa.Global:
+		fr.i.checkInitialised(key)
 		if r, ok := fr.i.globals[key]; ok {
-			fr.i.checkInitialised(key)
 			return r
 		}
+		// globals are materialised lazily (zero value) on first use
+		cell := zero(mustDeref(key.Type()))
+		fr.i.globals[key] = &cell
+		return &cell
 	}
 	if r, ok := fr.env[key]; ok {
 		return r
@@ -587,9 +591,14 @@ func (fr *frame) makeSliceSizes(lenV, capV value, tElt types.Type) (int, int) {
 	if !ps.branch(c.ULe(tc, c.Const(64, maxElems))) {
 		runtimePanic("makeslice: len out of range")
 	}
+	prevTotal := ps.allocTotal
 	ps.allocTerm(fr, c.Mul(tc, c.Const(64, uint64(esz))))
 	n := int(ps.concretize(tn, "make len"))
 	cc := int(ps.concretize(tc, "make cap"))
+	if ps.allocOpen && prevTotal != nil {
+		// the size is concrete from here on; keep the running total concrete
+		ps.allocTotal = c.Add(prevTotal, c.Const(64, uint64(int64(cc)*esz)))
+	}
 	if int64(cc) > ps.eng.Cfg.MaxConcreteAlloc {
 		ps.inconclusive(fmt.Sprintf("allocation of %d elements exceeds engine limit", cc))
 	}
@@ -714,8 +723,15 @@ func callSSA(i *interpreter, caller *frame, callpos token.Pos, fn *ssa.Function,
 	for i, fv := range fn.FreeVars {
 		fr.env[fv] = env[i]
 	}
+	var s0 int64
+	if fn.Synthetic == "package initializer" && os.Getenv("SYMGO_INITPROF") != "" {
+		s0 = i.ps.steps
+	}
 	for fr.block != nil {
 		runFrame(fr)
+	}
+	if fn.Synthetic == "package initializer" && os.Getenv("SYMGO_INITPROF") != "" {
+		fmt.Fprintf(os.Stderr, "init %s: %d steps (cumulative incl. deps)\n", fn.Pkg.Pkg.Path(), i.ps.steps-s0)
 	}
 	// Destroy the locals to avoid accidental use after return.
 	for i := range fn.Locals {
